@@ -420,10 +420,11 @@ FIG_ALTS = ['Q', 'Z', '7', 'QZ', 'Q7Z', 'Q Z', 'é', '中', '%', '&', '#', '_', 
 def figure_case(r, s, rng, i):
     """a figure (an image alone in its paragraph) with a very short alternative text: the text is the caption in every format"""
     alt = rng.choice(FIG_ALTS)
-    title = rng.choice(['', '', ' "T7"'])
+    title = rng.choice(['', '', ' "T7"', ' "50% & more_x"', ' "a#b $5 {c}"'])
+    locator = rng.choice(['p. 5', 'p. 5 & 6_7%', '$5 #3', 'a{b}c', 'x^2 ~y'])
     # an image alone in its paragraph is a figure; alone in a table cell or as a definition term it has no paragraph of its own
     form = rng.choice(['![%s](img.png%s)', '![%s][f1]\n\n[f1]: img.png%s', '![%s](img.png%s)', '|h|\n|---|\n|![%s](img.png%s)|', '![%s](img.png%s)\n: definition w9', '* ![%s](img.png%s)\n* two'])
-    text = 'qa0q\n\n' + form % (alt, title) + '\n\nqb0q\n\nlast w8\n'
+    text = 'qa0q\n\n' + form % (alt, title) + '\n\nqb0q\n\nlast w8 qc0q [%s][#foo] qd0q.\n\n[#foo]: Author. *Title*.\n' % locator
     src = text.encode('utf-8')
     esc = {'html': {'&': '&amp;'}, 'fodt': {'&': '&amp;'}, 'latex': {'%': '\\%', '&': '\\&', '#': '\\#', '_': '\\_'}}
     esc['beamer'] = esc['memoir'] = esc['latex']
@@ -441,6 +442,19 @@ def figure_case(r, s, rng, i):
         is_fig = not ('|h|' in text or ': definition' in text or '* two' in text)          # only a figure shows its alternative text as a caption
         if is_fig and (seg is None or want not in seg.replace('img.png', '')):
             r.violate('lost:%s:figure-caption' % fname, 'the alternative text %r of a figure is missing from the %s output' % (alt, fname), dict(requests=[rq]), (seg or '')[:400] + '\nsource: ' + core.show(src, 200))
+        # the title of a figure and the locator of a citation are document text wherever a format carries them
+        if fname in ('latex', 'beamer', 'memoir'):
+            for what, pat, where in (('figure-title', r'\\caption\[(.*?)\]\{', seg or ''), ('citation-locator', r'\\cite[pt]\[(.*?)\]\{', between(out, 'qc0q', 'qd0q') or '')):
+                m = re.search(pat, where, re.S)
+                if m:
+                    r.stats['latex_optional_arguments_checked'] += 1
+                    if not LATEX_OK.match(m.group(1)):
+                        r.violate('unescaped:%s:attr:%s' % (fname, what), 'reserved characters of a %s reach %s unescaped: %r' % (what.replace('-', ' '), fname, m.group(1)[:80]), dict(requests=[rq]), core.show(src, 300))
+        elif fname == 'html':
+            loc = between(out, 'qc0q', 'qd0q') or ''
+            m = re.search(r'class="citation">\((.*?), \d+\)</a>', loc, re.S)
+            if m and not HTML_TEXT_OK.match(m.group(1)):
+                r.violate('unescaped:html:text:citation-locator', 'reserved characters of a citation locator reach html unescaped: %r' % m.group(1)[:80], dict(requests=[rq]), core.show(src, 300))
         err = check_nesting(fname, out)
         if err:
             r.violate('nesting:%s:image-alone-in-%s' % (fname, 'table-cell' if '|h|' in text else ('definition-term' if ': definition' in text else ('list-item' if '* two' in text else 'paragraph'))),
